@@ -10,9 +10,10 @@
    term.c does no argument screening of its own: every function forwards to the driver's
    vtable entry (print computes strlen first; setpen / chpen run the delta encoder; pause /
    resume / teardown add the UNSTARTED state and the pen re-send).  What it adds is the
-   output path: every driver write goes through write_str(str, len), whose convention
-   "len == 0 means strlen(str)" is visible at the API: tickit_term_printn(tt, str, 0) writes
-   the whole string.  The output buffer is modelled only as "bytes in order": a write either
+   output path: every driver write goes through write_str(str, len), whose convention is
+   "len == 0 means strlen(str)" (the drivers rely on it for their literal strings).
+   tickit_term_printn returns at once for len == 0 (fix C09-printn-zero-length; the pinned
+   code forwarded the 0 and so wrote the whole string: [printn_pinned]).  The output buffer is modelled only as "bytes in order": a write either
    goes to the output function at once or is appended to the buffer, which is handed over
    when full and on flush; the observable stream is the concatenation, so an operation's
    output is the token list it writes and [AFlush] / [ASetOutputBuffer] write nothing.
@@ -52,6 +53,9 @@ Definition write_str_bytes (str : list Z) (len : Z) : option (list Z) :=
 Definition drv_print (str : list Z) (len : Z) : option (list token) :=
   match write_str_bytes str len with Some bs => Some (chars bs) | None => None end.
 
+(* tickit_term_printn as it was in the pinned tree: the length is forwarded unchanged *)
+Definition printn_pinned (str : list Z) (len : Z) : option (list token) := drv_print str len.
+
 Definition bool_result (b : bool) : option Z := Some (if b then 1 else 0).
 
 (* one call of the public API: new terminal object, tokens written, result (bool as 0/1,
@@ -68,10 +72,11 @@ Definition api_step (t : term) (a : api) : option (term * list token * option Z)
       | None => None
       end
   | APrintn str len =>
-      match drv_print str len with
-      | Some ts => Some (t, ts, None)
-      | None => None
-      end
+      if len =? 0 then Some (t, [], None)      (* if(!len) return; *)
+      else match drv_print str len with
+           | Some ts => Some (t, ts, None)
+           | None => None
+           end
   | AErasech n me => Some (t, xt_erasech (get_bool_attr (t_pen t) AReverse) n me, None)
   | AClear => Some (t, xt_clear, None)
   | AScrollrect r d rt =>
